@@ -16,6 +16,7 @@ from distance3d import colliders, geometry, mesh, utils
 from harness.impl import shapes_trace as st
 
 TRACE_FILES = [geometry.__file__, colliders.__file__, mesh.__file__, utils.__file__]
+HIST_DIRS = 4        # queries per intermediate stage of a pose history
 
 
 def pose4(Rm, t):
@@ -29,9 +30,18 @@ def arr(v):
     return np.ascontiguousarray(np.array(v, dtype=float))
 
 
-def build(sh):
+def build(sh, T=None):
+    """T: the 4x4 array object to hand to the constructor (kinds whose constructor takes a pose); default a new one"""
     k = sh["kind"]
     extra = {}
+    if T is not None:
+        P = T
+
+        def pose4(Rm, t):  # noqa: F811  (the caller's array, already filled with this pose)
+            assert np.array_equal(P, globals()["pose4"](Rm, t))
+            return P
+    else:
+        pose4 = globals()["pose4"]
     if k == "sphere":
         c = colliders.Sphere(arr(sh["c"]), float(sh["r"]))
     elif k == "box":
@@ -75,6 +85,70 @@ def fl(v):
     return [float(x) for x in np.asarray(v, dtype=float).reshape(-1)]
 
 
+# ---------------------------------------------------------------- pose histories
+def shape_at(sh, P):
+    """the same shape at pose P = dict(R, t) (mirror of harness/props/shapes_common.with_pose)"""
+    k = sh["kind"]
+    out = dict(sh)
+    Rm, t = P["R"], P["t"]
+    if "R" in sh:
+        out.update(R=Rm, t=t)
+    elif k == "sphere":
+        out.update(c=t)
+    elif k == "disk":
+        out.update(c=t, n=[Rm[i][2] for i in range(3)])
+    elif k == "ellipse":
+        out.update(c=t, a0=[Rm[i][0] for i in range(3)], a1=[Rm[i][1] for i in range(3)])
+    else:
+        raise ValueError(k)
+    return out
+
+
+def final_pose(sh):
+    if "R" in sh:
+        return dict(R=sh["R"], t=sh["t"])
+    return dict(R=sh["Rfull"], t=sh["c"])
+
+
+def build_with_history(sh, hist, margin, observe, triangles=None):
+    """construct at hist['start'], then update_pose through hist['mids'] to the pose of `sh`, re-using ONE array
+    object for the poses (overwritten in place between the calls): the constructor's own array (ctor_array) or
+    the array of the first update_pose; optionally that array is matrix 1 of a (3, 4, 4) stack.  `observe(col)`
+    is called after construction and after every intermediate update.
+    -> (bare collider, collider incl. Margin, extra, [observations])"""
+    stack = np.zeros((3, 4, 4)) if hist.get("stack") else None
+
+    def new_array(P):
+        T = pose4(P["R"], P["t"])
+        if stack is not None:
+            stack[0] = np.eye(4)
+            stack[2] = np.eye(4)
+            stack[1][...] = T
+            return stack[1]
+        return T
+    start_sh = shape_at(sh, hist["start"])
+    if triangles is not None:
+        start_sh = dict(start_sh, triangles=triangles, winding_done=True)
+    A = None
+    if hist.get("ctor_array"):
+        A = new_array(hist["start"])
+        c, extra = build(start_sh, T=A)
+    else:
+        c, extra = build(start_sh)
+    col = c if margin is None else colliders.Margin(c, float(margin))
+    stages = [observe(col)]
+    fin = final_pose(sh)
+    for P in list(hist["mids"]) + [fin]:
+        if A is None:
+            A = new_array(P)
+        else:
+            A[...] = pose4(P["R"], P["t"])          # the caller moves the SAME array in place ...
+        col.update_pose(A)                           # ... and tells the collider
+        if P is not fin:
+            stages.append(observe(col))
+    return c, col, extra, stages
+
+
 def same_bits(a, b):
     """interpreted vs compiled: equal up to 1e-9 relative (numba's np.linalg.norm / np.dot kernels
     are not bit-identical to numpy's; bitwise JIT equivalence is C20's subject)"""
@@ -96,6 +170,8 @@ def interpreted_replay(case, out, tracer_mods):
     with st.interpreted(tracer_mods):
         c, _ = build(dict(sh, triangles=out.get("triangles"), winding_done=True))
         col = c if case.get("margin") is None else colliders.Margin(c, float(case["margin"]))
+        if sh["kind"] == "mesh" and case.get("history") is not None:
+            c._support_function.first_idx = out["first_idx0"]      # the vertex cached by the history's queries
         if not same_bits(col.first_vertex(), out["first_vertex"]):
             diffs.append("first_vertex")
         if not same_bits(col.center(), out["center"]):
@@ -137,8 +213,12 @@ def changed(before, obj):
 def run_case(case, tracer, tracer_mods):
     out = {}
     sh = case["shape"]
+    hist = case.get("history")
     try:
-        c, extra = build(sh)
+        if hist is None:
+            c, extra = build(sh)
+        else:
+            c, extra = build(shape_at(sh, hist["start"]))      # constructible at all? (and the triangles of a mesh)
         out.update(extra)
     except BaseException as e:  # noqa
         out["build_exc"] = type(e).__name__
@@ -148,6 +228,18 @@ def run_case(case, tracer, tracer_mods):
         col = c
         if case.get("margin") is not None:
             col = colliders.Margin(c, float(case["margin"]))
+        if hist is not None:
+            hd = [arr(d) for d in case["dirs"][:HIST_DIRS]]
+
+            def observe(cl):
+                return dict(sup=[fl(cl.support_function(d.copy())) for d in hd], first_vertex=fl(cl.first_vertex()),
+                            center=fl(cl.center()))
+            c, col, extra2, stages = build_with_history(sh, hist, case.get("margin"), observe, triangles=extra.get("triangles"))
+            out["stages"] = stages
+            if sh["kind"] == "mesh":
+                out["first_idx_ctor"] = extra["first_idx0"]
+                extra = dict(extra2, first_idx0=int(c._support_function.first_idx))
+                out["first_idx0"] = extra["first_idx0"]
         state0 = array_state(c)
         out["first_vertex"] = fl(col.first_vertex())
         out["center"] = fl(col.center())
